@@ -7,8 +7,7 @@ namespace Rbpf.Src
 open Rbpf.Generated Rbpf.Generated.Ctl
 
 theorem stepSrc_rel (env : Env) (σ : St) (hsz : env.prog.size < 2 ^ 63) (h : Inv σ) :
-    RelOut (stepSrc env σ) (Interp.step env (abs σ)) := by
-  sorry
+    RelOut (stepSrc env σ) (Interp.step env (abs σ)) := stepSrc_rel' env σ hsz h
 
 theorem stepSrc_wrapped (env : Env) (σ : St) (h : 2 ^ 63 ≤ σ.insnPtr) : stepSrc env σ = .panic := stepSrc_wrapped' env σ h
 
